@@ -373,6 +373,71 @@ func rulesC14(c *Ctx) {
 			}
 		}
 	}
+	// whole-struct copies in nested blocks (x := *s.F inside an if): the same
+	// obligation, the re-assignments looked for in the block the copy is in
+	for _, f := range p.SortedFuncs() {
+		if !isCloneFunc(f) {
+			continue
+		}
+		fd := p.FuncDecls[f]
+		if fd.Body == nil {
+			continue
+		}
+		name := FuncName(f)
+		ast.Inspect(fd.Body, func(nd ast.Node) bool {
+			blk, ok := nd.(*ast.BlockStmt)
+			if !ok || blk == fd.Body {
+				return true
+			}
+			for i, st := range blk.List {
+				as, ok := st.(*ast.AssignStmt)
+				if !ok || len(as.Lhs) != 1 || len(as.Rhs) != 1 {
+					continue
+				}
+				star, ok := as.Rhs[0].(*ast.StarExpr)
+				dst := identOf(as.Lhs[0])
+				if !ok || dst == nil {
+					continue
+				}
+				stype, ok := p.Info.TypeOf(star).Underlying().(*types.Struct)
+				if !ok {
+					continue
+				}
+				if nt, ok := p.Info.TypeOf(star).(*types.Named); !ok || nt.Obj().Pkg() != p.Types {
+					continue
+				}
+				tname := p.TypeStr(p.Info.TypeOf(star))
+				over := map[string]bool{}
+				for _, s2 := range blk.List[i+1:] {
+					if a, ok := s2.(*ast.AssignStmt); ok {
+						for _, l := range a.Lhs {
+							if sel, ok := l.(*ast.SelectorExpr); ok {
+								if id := identOf(sel.X); id != nil && p.Info.ObjectOf(id) == p.Info.ObjectOf(dst) {
+									over[sel.Sel.Name] = true
+								}
+							}
+						}
+					}
+				}
+				for k := 0; k < stype.NumFields(); k++ {
+					fld := stype.Field(k)
+					if !e.tracked(fld.Type()) {
+						continue
+					}
+					nOver++
+					key := name + ": " + tname + "." + fld.Name() + " (copy of " + types.ExprString(star.X) + ")"
+					if why, ok := immutableFields[tname+"."+fld.Name()]; ok {
+						c.OK("C14.overwrite", key, as.Pos(), "immutable leaf: "+why)
+					} else if over[fld.Name()] {
+						c.OK("C14.overwrite", key, as.Pos(), "re-assigned after the struct copy")
+					} else {
+						c.Bad("C14.overwrite", key, as.Pos(), "pointer-like field is copied by the struct assignment and never re-assigned: clone and original share it")
+					}
+				}
+			}
+			return true
+		})
+	}
 	// every shallow copy the effect analysis skipped must be one C14.overwrite examined
 	for _, sf := range p.allSSAFuncs() {
 		for _, sh := range e.sums[sf].shallow {
